@@ -1,5 +1,6 @@
 //! Correspondence harness: runs the real crate on generated / replayed inputs and
 //! writes Coq case files in which the model is evaluated and compared.
+mod c07;
 mod c08;
 mod c14;
 mod util;
@@ -71,6 +72,7 @@ fn main() {
         }
         let mut rng = Rng::new(seed);
         let gen = match prop.as_str() {
+            "C07" => c07::generate(&mut rng, n),
             "C08" => c08::generate(&mut rng, n, tier == "thorough"),
             "C14" => c14::generate(&mut rng, n),
             _ => usage(),
@@ -78,6 +80,7 @@ fn main() {
         inputs.extend(gen);
     }
     let batch = match prop.as_str() {
+        "C07" => c07::batch(&inputs),
         "C08" => c08::batch(&inputs),
         "C14" => c14::batch(&inputs),
         _ => usage(),
